@@ -165,7 +165,7 @@ JOBS['C13'] = [md('md_range_n1', 1, 1, 3), md('md_range_n2', 1, 2, 3), md('md_ra
 JOBS['C05'] = [dyn('dyn_q_noidx_b0_o2', 0, 0, 2, idxl=10), dyn('dyn_q_noidx_b0_o3', 0, 0, 3, idxl=10), dyn('dyn_q_noidx_b0_o4', 0, 0, 4, idxl=10, timeout=1500)]
 JOBS['C06'] = [dyn('dyn_it_noidx_b0_o2', 1, 0, 2, idxl=10), dyn('dyn_rng_noidx_b0_o2', 3, 0, 2, idxl=10), dyn('dyn_lbit_noidx_b0_o2', 4, 0, 2, idxl=10), dyn('dyn_it_noidx_b0_o4', 1, 0, 4, idxl=10, tiers=T, timeout=3000)]
 JOBS['C15'] = [dyn('dyn_inv_noidx_b0_o2', 2, 0, 2, idxl=10), dyn('dyn_inv_noidx_b0_o3', 2, 0, 3, idxl=10), dyn('dyn_inv_noidx_b0_o4', 2, 0, 4, idxl=10, tiers=T, timeout=3000, mem_gb=40)]
-JOBS['C05'] += [dynstep('dynstep_find_310', 5, 3, 1, 0, timeout=1500), dynstep('dynstep_find_311', 5, 3, 1, 1, timeout=1500), dynstep('dynstep_q_310', 0, 3, 1, 0, tiers=T, timeout=3000), dynstep('dynstep_q_321', 0, 3, 2, 1, tiers=T, timeout=3000, mem_gb=40)]
+JOBS['C05'] += [dynstep('dynstep_find_311', 5, 3, 1, 1, timeout=1500), dynstep('dynstep_find_310', 5, 3, 1, 0, tiers=T, timeout=3000), dynstep('dynstep_q_310', 0, 3, 1, 0, tiers=T, timeout=3000), dynstep('dynstep_q_321', 0, 3, 2, 1, tiers=T, timeout=3000, mem_gb=40)]
 JOBS['C06'] += [dynstep('dynstep_range_310', 6, 3, 1, 0, tiers=T, timeout=3000, mem_gb=40), dynstep('dynstep_it_310', 1, 3, 1, 0, tiers=T, timeout=3000, mem_gb=40), dynstep('dynstep_rng_310', 3, 3, 1, 0, tiers=T, timeout=3000, mem_gb=40)]
 JOBS['C15'] += [dynstep('dynstep_inv_322', 2, 3, 2, 2)]
 JOBS['C11'] = [mapped('mapped_u8_n2', 'uint8_t', 2), mapped('mapped_i8_n2', 'int8_t', 2), mapped('mapped_u8_n3_dense', 'uint8_t', 3, ord_hi=3), mapped('mapped_i8_n3', 'int8_t', 3, tiers=T, timeout=3000)]
